@@ -278,6 +278,16 @@ def Case.specFindings (c : Case) : List Finding := Id.run do
         let missing := alone.filter (fun x => !inSet.contains x)
         out := out ++ [⟨"member_process_behaviour_differs", s!"{l}: only in the set {extra.take 4}, only alone {missing.take 4} "
           ++ s!"({inSet.length} traces in the set, {alone.length} alone)"⟩]
+    -- a process that does NOT complete by itself (e.g. started at one of its two start events only: the completion monitor
+    -- waits for the other one) was driven alone as far as it goes — every task answered, every message delivered — so
+    -- inside a set an instance of it can do no more than that
+    else if !(c.alone.any (fun (p, t) => p == pidOfLabel l && t.startsWith "cease")) &&
+        (c.alone.any (fun (p, _) => p == pidOfLabel l)) then
+      let inSet := (c.memberLines.filter (·.1 == l)).map (·.2)
+      let alone := (c.alone.filter (·.1 == pidOfLabel l)).map (·.2)
+      let extra := inSet.filter (fun x => !alone.contains x)
+      if !extra.isEmpty then
+        out := out ++ [⟨"member_process_does_more_than_alone", s!"{l}: {extra.take 6} happen in the set and never when the process is started by itself the same way"⟩]
   -- a throw is a token passing the throw event: every token that reaches one passes it (throws, moves on), in the
   -- set and alone
   if !panicked then
